@@ -72,7 +72,7 @@ def check(pid, tier, seed):
             out.add(states=res.distinct, transitions=res.generated)
         # plans: random walks of the model that contain tool activity
         sc.write('CX.cfg', cfg(3, 3, 2, 6, 16, True))
-        res = run_tlc(sc, 'Compaction', 'CX.cfg', simulate=f'num={20000 if quick else 100000}', depth=17, seed=seed or 3,
+        res = run_tlc(sc, 'Compaction', 'CX.cfg', simulate=f'num={8000 if quick else 60000}', depth=17, seed=seed or 3,
                       workers=8, timeout=900)
         plans = {}
         for evs in res.printed('SCN'):
@@ -80,7 +80,7 @@ def check(pid, tier, seed):
             if 'batch' in kinds and len(evs) >= 8:
                 plans[json.dumps(evs, sort_keys=True)] = evs
         # keep maximal histories only: drop every history that is a proper prefix of another one
-        prefixes = {json.dumps(evs[:-1], sort_keys=True) for evs in plans.values()}
+        prefixes = {json.dumps(evs[:n], sort_keys=True) for evs in plans.values() for n in range(8, len(evs))}
         kept = [evs for k, evs in plans.items() if k not in prefixes]
         if len(kept) < 10:
             raise MachineryError(f'only {len(kept)} plans exported')
